@@ -464,6 +464,9 @@ func (p *Parent) runChild(self, id, tier string, seed int64, cases []int, wdir s
 	ef, _ := os.Create(errPath)
 	cmd.Stderr = ef
 	cmd.Stdout = ef
+	if os.Getenv("VERIF_TIMING") != "" {
+		cmd.Stderr = os.Stderr
+	}
 	cmd.Env = append(os.Environ(), "VERIF_CHILD=1")
 	wall := 4 * time.Hour
 	if v := os.Getenv("VERIF_WALL"); v != "" {
@@ -651,6 +654,7 @@ func (p *Parent) finish(start time.Time) int {
 		vs := bySig[sig]
 		nviol += len(vs)
 		if si >= 8 {
+			fmt.Printf("  (also) signature: %s (%d occurrence(s))\n", sig, len(vs))
 			continue
 		}
 		v := vs[0]
@@ -684,6 +688,9 @@ func (p *Parent) finish(start time.Time) int {
 		}
 		if p.Counters["evaluations"] == 0 {
 			p.Inconclusive("no evaluations")
+		}
+		if len(p.Samples) == 0 {
+			p.Inconclusive("no sample case was recorded by the check")
 		}
 	}
 
